@@ -388,6 +388,9 @@ pub fn run(n: usize, spec_path: &str, out_path: &str, watchdog_s: u64) {
             let w: Vec<String> = rec.writes.iter().map(|(a, b)| format!("{}:{}", a, b)).collect();
             let _ = writeln!(out, "RESP\t{}\t{}\t{}\t{}\t{}\t{}\t{}", scn, id, cid, hex(r.as_bytes()), hex(w.join(";").as_bytes()), hex(&rec.accepted), rec.flushes);
         }
+        for (th, msg, ff) in crate::probe::PANICS.lock().unwrap_or_else(|e| e.into_inner()).drain(..) {
+            let _ = writeln!(out, "PANIC\t{}\t{}\t{}\t{}", scn, th, hex(msg.as_bytes()), hex(ff.as_bytes()));
+        }
         dump_events(&mut out, &scn);
         let _ = out.flush();
         if !flags.is_empty() && kind != "faulty" {
